@@ -417,6 +417,7 @@ pub fn eval_one(
         printed,
         plan,
         ModelOpts {
+            tick_start: 0,
             finally_on_abrupt_exit: true,
         },
     );
@@ -432,6 +433,7 @@ pub fn eval_one(
             printed,
             plan,
             ModelOpts {
+                tick_start: 0,
                 finally_on_abrupt_exit: false,
             },
         );
@@ -1007,6 +1009,8 @@ fn find_again(
             noise_seed: None,
             main_is_module_body: false,
                 define_globals: true,
+                tests: vec![],
+                main_call: None,
         },
     );
     // try the hinted plan first (cheap), then the full enumeration
@@ -1048,7 +1052,7 @@ pub fn shrink(
     let mut best = p.clone();
     let Some((mut best_printed, mut best_finding)) = find_again(&best, &class, seed, clock, &finding.plan) else {
         // cannot even reproduce without layout noise: keep the original
-        let printed = simlang::print(p, &PrintOpts { noise_seed: None, main_is_module_body: false, define_globals: true });
+        let printed = simlang::print(p, &PrintOpts { noise_seed: None, main_is_module_body: false, define_globals: true, tests: vec![], main_call: None });
         return (
             p.clone(),
             printed,
@@ -1198,6 +1202,8 @@ impl Worker for UnwindWorker {
                 noise_seed: noise,
                 main_is_module_body: false,
                 define_globals: true,
+                tests: vec![],
+                main_call: None,
             },
         );
         let ev = evaluate_program(&p, &printed, run_seed, &self.clock, false);
@@ -1276,9 +1282,9 @@ impl Worker for UnwindWorker {
                 scenario: json!({
                     "source": mprinted.source,
                     "fault_plan": plan_to_json(&mf.plan),
-                    "expected": prediction_to_json(&Model::run(&mp, &mprinted, &mf.plan, ModelOpts { finally_on_abrupt_exit: true })),
+                    "expected": prediction_to_json(&Model::run(&mp, &mprinted, &mf.plan, ModelOpts { tick_start: 0, finally_on_abrupt_exit: true })),
                     "expected_deviation": if mf.finally_deviation {
-                        prediction_to_json(&Model::run(&mp, &mprinted, &mf.plan, ModelOpts { finally_on_abrupt_exit: false }))
+                        prediction_to_json(&Model::run(&mp, &mprinted, &mf.plan, ModelOpts { tick_start: 0, finally_on_abrupt_exit: false }))
                     } else { Value::Null },
                 }),
                 extra: json!({
@@ -1389,7 +1395,7 @@ pub fn show(run_seed: u64, fault: Option<&str>) {
     let knobs = GenKnobs::swarm(&mut kr);
     let p = simlang::generate(&mut sr, &knobs);
     let noise = if kr.chance(1, 2) { Some(mix(run_seed, 77)) } else { None };
-    let printed = simlang::print(&p, &PrintOpts { noise_seed: noise, main_is_module_body: false, define_globals: true });
+    let printed = simlang::print(&p, &PrintOpts { noise_seed: noise, main_is_module_body: false, define_globals: true, tests: vec![], main_call: None });
     let mut plan = FaultPlan::new();
     if let Some(f) = fault {
         for part in f.split(',') {
